@@ -294,3 +294,51 @@ func VH_C01_pause_with_backlog() {
 		vrtReach("large-backlog")
 	}
 }
+
+// vhResumeHandler: the system message with id 99 is the supervisor's "resume
+// mailbox" command, handled - like every message - on the mailbox's own
+// consumer goroutine.
+type vhResumeHandler struct {
+	vhSeqHandler
+}
+
+func (h *vhResumeHandler) HandleEnvelop(e vivid.Envelop) {
+	t := e.(*vhTok)
+	if t.sys && t.id == 99 {
+		h.inFlight++
+		if h.inFlight > h.maxInFlight {
+			h.maxInFlight = h.inFlight
+		}
+		h.mb.Resume()
+		h.inFlight--
+		return
+	}
+	h.vhSeqHandler.HandleEnvelop(e)
+}
+
+// VH_C02_resume_on_consumer (Engine A, preemptive): user messages wait in a
+// paused mailbox; the resume arrives as a system message and is executed on the
+// consumer goroutine itself. Whatever the interleaving there is still one
+// consumer: the waiting messages are handled one at a time, in the order they
+// were sent, each exactly once.
+func VH_C02_resume_on_consumer() {
+	n := 2 + vrtChoose(2)
+	h := &vhResumeHandler{}
+	h.pauseAt = -1
+	mb := NewUnboundedMailbox(4, h)
+	h.mb = mb
+	mb.Pause()
+	for i := 0; i < n; i++ {
+		mb.Enqueue(&vhTok{id: i})
+	}
+	vrtYield()
+	mb.Enqueue(&vhTok{id: 99, sys: true})
+	vrtYield()
+	vrtRaceOff()
+	vrtAssert(len(h.handled) == n, "every-accepted-message-handled-exactly-once")
+	for i := 0; i < n && i < len(h.handled); i++ {
+		vrtAssert(h.handled[i] == i, "handled-in-enqueue-order")
+	}
+	vrtAssert(h.maxInFlight == 1, "at-most-one-handler-in-flight")
+	vrtReach("resumed-on-consumer")
+}
